@@ -22,7 +22,7 @@ EXTENDS Tags, Geometry, MC_Universe
 
 Ops == {"restrict", "remove_elements", "add", "matmul", "remove_unused_nodes", "remove_duplicate_nodes",
         "to_meshtri", "to_meshtri_x", "to_meshtet", "extrude", "scaled", "translated", "mirrored", "morphed",
-        "oriented", "trace", "refine"}
+        "oriented", "trace", "refine", "setup"}
 SameCellsOps == {"remove_unused_nodes", "remove_duplicate_nodes", "oriented"}
 RigidOps     == {"scaled", "translated", "mirrored", "morphed"}
 SplitOps     == {"to_meshtri", "to_meshtri_x", "to_meshtet"}
@@ -62,7 +62,7 @@ ParWellFormed(e) ==
     [] OTHER               -> TRUE
 SurgWellFormed(e) ==
   /\ e.op \in Ops /\ Len(e.pre) >= 1 /\ Len(e.post) >= 1
-  /\ \A j \in DOMAIN e.pre  : MeshWellFormed(e.pre[j]) /\ TagIdsInRange(e.pre[j])
+  /\ \A j \in DOMAIN e.pre  : MeshWellFormed(e.pre[j])
   /\ \A j \in DOMAIN e.post : /\ \A k \in DOMAIN e.post[j].t : \A i \in DOMAIN e.post[j].t[k] :
                                     e.post[j].t[k][i] \in 1..Len(e.post[j].p)
                               /\ (e.op # "trace" => \A k \in DOMAIN e.post[j].t : Len(e.post[j].t[k]) = NNodes(e.post[j].kind))
@@ -182,6 +182,9 @@ JudgeSub(e) == e.op \in CarryingOps /\ ~(e.op = "restrict" /\ e.par.skips = 1)
 JudgeBnd(e) == e.op \in CarryingOps /\ ~(e.op = "restrict" /\ e.par.skipb = 1)
 
 PostTagsInRange(e) == \A j \in DOMAIN e.post : TagIdsInRange(e.post[j])
+\* an operand whose own tag arrays are out of range (left behind by an earlier step that is not judged here, e.g. a
+\* refinement) gives the operation nothing well-defined to carry: the tag clauses are then not evaluated
+PreTagsOK(e) == \A j \in DOMAIN e.pre : TagIdsInRange(e.pre[j])
 \* every entity that was tagged and still exists is tagged with the same name
 CarriedTagsSameDesignation(e) ==
   /\ PostTagsInRange(e)
@@ -197,7 +200,7 @@ RemovedEntitiesUntagged(e) ==
 \* named deviation (finding #15): remove_duplicate_nodes renumbers the vertices (hence the facets) but keeps the
 \* facet index arrays verbatim, while the sub-domain part is right
 DupKeepsFacetIds(e) ==
-  /\ e.op = "remove_duplicate_nodes" /\ PostTagsInRange(e)
+  /\ e.op = "remove_duplicate_nodes" /\ PreTagsOK(e) /\ PostTagsInRange(e)
   /\ BndNames(Pre(e)) = BndNames(Post(e))
   /\ \A n \in BndNames(Pre(e)) : BndOf(Pre(e), n).ids = BndOf(Post(e), n).ids
   /\ \A n \in SubNames(Pre(e)) : ExpectedSub(e, n) = PostSub(e, n)
@@ -228,10 +231,10 @@ OperandsUnchanged(e) == e.ck_pre = e.ck_post
 
 SurgeryClauses(e) ==
   IF e.err # "" THEN [NoUnexpectedError |-> FALSE]
-  ELSE IF e.op = "refine" THEN [NoUnexpectedError |-> TRUE]          \* state change only (C12 judges refinement)
+  ELSE IF e.op \in {"refine", "setup"} THEN [NoUnexpectedError |-> TRUE]   \* state change only (C12 judges refinement)
   ELSE IF ~SurgWellFormed(e) THEN [NoUnexpectedError |-> TRUE, WellFormed |-> FALSE]
-  ELSE LET carried == CarriedTagsSameDesignation(e)
-           removed == RemovedEntitiesUntagged(e)
+  ELSE LET carried == PreTagsOK(e) => CarriedTagsSameDesignation(e)
+           removed == PreTagsOK(e) => RemovedEntitiesUntagged(e)
            dev15   == ~(carried /\ removed) /\ DupKeepsFacetIds(e)
        IN [ NoUnexpectedError |-> TRUE, WellFormed |-> TRUE,
             Valid |-> Valid(e),
